@@ -42,6 +42,11 @@ def run(ctx: Ctx):
     from .common import axis_role_lint
 
     axis_role_lint(ctx, "axis-roles")
+    # a twin rewritten as "copy the defaults, overwrite by the position among the DIFFERENCES" addresses the block by positions
+    # counted in a filtered list: the row and the column direction then disagree as soon as a plain subtotal precedes a difference
+    from .common import index_space_lints
+
+    index_space_lints(ctx, "index-space", ["matrix/subtotals.py", "stripe/insertion.py"], kinds=("filtered-enumeration",))
     from .common import generic_lints
 
     # a vector laid out along rows or columns by comparing its length with an extent of the block is right for one
@@ -292,6 +297,10 @@ def marginal_branches(ctx: Ctx):
             ctx.undecided("marginal-mirror", where, "no ROWS/COLUMNS branch found", "mirrored branches")
             continue
         for rows_e, cols_e in br[:1]:
+            from ..symex import fold, fold_consts
+
+            # a comprehension over literal block positions (`for i, j in ((0, 0), (1, 0))`) is unrolled on both sides
+            rows_e, cols_e = fold_consts(fold(rows_e)), fold_consts(fold(cols_e))
             v, tt, why = compare_twins(rows_e, cols_e)
             ctx.ob("marginal-mirror", where, tt[:300], u(cols_e)[:300], v, "the ROWS branch of a marginal is the mirror image of its COLUMNS branch. " + why)
             ctx.count("marginal branch pairs")
@@ -301,8 +310,11 @@ def marginal_branches(ctx: Ctx):
     ctx.check_expr("marginal-mirror.axis", f"{MM}::_ScaleMedian._sorted_counts", e, "(count.take(self._values_sort_order, 1 if self._orientation == MO.ROWS else 0) for count in self._counts)", "ROWS marginals work along axis 1, COLUMNS along axis 0")
     # the two static std-dev helpers
     sd = ctx.repo.cls(MM, "_ScaleMeanStddev")
-    er = SUMMARIZER.summarize(ctx.repo.lookup(sd, "_rows_weighted_mean_stddev").node)
-    ec = SUMMARIZER.summarize(ctx.repo.lookup(sd, "_columns_weighted_mean_stddev").node)
+    from ..symex import fold_consts as _fc
+
+    # a shared static helper taking the axis (`_weighted_mean_stddev(counts, values, scale_mean, axis)`) is inlined into both twins
+    er = _fc(expand(ctx.repo, sd, "_rows_weighted_mean_stddev", stop=lambda mm: mm.kind in ("lazyproperty", "property")))
+    ec = _fc(expand(ctx.repo, sd, "_columns_weighted_mean_stddev", stop=lambda mm: mm.kind in ("lazyproperty", "property")))
     lr, lc = _last_leaf(er), _last_leaf(ec)
     # spellings differ (.T placement); compare axis / subscript orientation tokens
     ax_r = sorted(u(k.value) for n in ast.walk(lr) for k in getattr(n, "keywords", []) if k.arg == "axis")
@@ -310,7 +322,10 @@ def marginal_branches(ctx: Ctx):
     sub_r = sorted({u(n.slice) for n in ast.walk(lr) if isinstance(n, ast.Subscript) and "not_a_nan" in u(n.slice)})
     sub_c = sorted({u(n.slice) for n in ast.walk(lc) if isinstance(n, ast.Subscript) and "not_a_nan" in u(n.slice)})
     ok = ax_r == ["1", "1"] and ax_c == ["0", "0"] and all("(slice(None, None, None), " in s or s.startswith("(:") or s.startswith("slice") or ":, " in s for s in sub_r)
-    ctx.ob("marginal-mirror.stddev", f"{MM}::_ScaleMeanStddev._rows/_columns_weighted_mean_stddev", f"rows: axis={ax_r} mask={sub_r}; columns: axis={ax_c} mask={sub_c}", "rows: axis 1, mask on columns; columns: axis 0, mask on rows", ax_r == ["1", "1"] and ax_c == ["0", "0"] and all(s.replace(" ", "").startswith(":,") or s.replace(" ","").startswith("(:,") for s in sub_r) and all(s.replace(" ", "").endswith(",:") or s.replace(" ","").endswith(",:)") for s in sub_c))
+    good = bool(ax_r) and bool(ax_c) and set(ax_r) == {"1"} and set(ax_c) == {"0"} and len(ax_r) == len(ax_c) and all(s.replace(" ", "").startswith(":,") or s.replace(" ","").startswith("(:,") for s in sub_r) and all(s.replace(" ", "").endswith(",:") or s.replace(" ","").endswith(",:)") for s in sub_c)
+    # positive evidence of a swapped direction: a literal axis of the OTHER direction, or the mask on the other side
+    swapped = "0" in ax_r or "1" in ax_c or any(s.replace(" ", "").endswith(",:") or s.replace(" ", "").endswith(",:)") for s in sub_r) or any(s.replace(" ", "").startswith(":,") or s.replace(" ", "").startswith("(:,") for s in sub_c)
+    ctx.ob("marginal-mirror.stddev", f"{MM}::_ScaleMeanStddev._rows/_columns_weighted_mean_stddev", f"rows: axis={ax_r} mask={sub_r}; columns: axis={ax_c} mask={sub_c}", "rows: axis 1, mask on columns; columns: axis 0, mask on rows", True if good else (False if swapped else None))
     ctx.require_min("marginal branch pairs", 15)
     twin_arithmetic(ctx)
     twin_constructs(ctx)
@@ -405,14 +420,18 @@ def twin_constructs(ctx: Ctx):
         if len(own) == 1 and ci.name == "OverlapSubtotals" and own == {"_subtotal_rows"}:
             ctx.held("twin-constructs", where, "only _subtotal_rows is overridden (listed exception)", "the overlaps measure has no inserted columns: its columns dimension is multiple response")
             continue
+        # a different construct profile is NOT evidence of different behaviour (one twin may be vectorised on its own):
+        # it is reported as undecided - the twins could not be compared - never as a violation
         if len(own) == 1:
-            ctx.violated("twin-constructs", where, f"only {sorted(own)[0]} is overridden in {ci.name}", "both twins overridden together", "the other direction still uses the inherited stacking")
+            ctx.undecided("twin-constructs", where, f"only {sorted(own)[0]} is overridden in {ci.name}", "both twins overridden together")
             continue
         pr = profile(ci.members["_subtotal_rows"].node, mirror=True)
         pc = profile(ci.members["_subtotal_columns"].node)
         only_r, only_c = dict(pr - pc), dict(pc - pr)
-        ctx.ob("twin-constructs", where, f"rows only: {only_r}; columns only: {only_c}" if (only_r or only_c) else f"same constructs on both sides: {dict(pc)}", "the same constructs on both sides (hstack <-> vstack)",
-               not (only_r or only_c), "row and column subtotals of one class are built the same way")
+        if only_r or only_c:
+            ctx.undecided("twin-constructs", where, f"rows only: {only_r}; columns only: {only_c}", "the same constructs on both sides (hstack <-> vstack): the twins are built differently, the mirror comparison cannot relate them")
+        else:
+            ctx.held("twin-constructs", where, f"same constructs on both sides: {dict(pc)}", "the same constructs on both sides (hstack <-> vstack)")
     ctx.count("classes overriding the subtotal stacks", n)
     ctx.require_min("classes overriding the subtotal stacks", 2)
 
@@ -427,8 +446,9 @@ def subtotal_methods(ctx: Ctx):
     b2 = lambda *n: {x: ast.Name(id=x, ctx=ast.Load()) for x in n}
     for cname in ("SumSubtotals", "PositiveTermSubtotals", "NegativeTermSubtotals", "NanSubtotals"):
         ci = ctx.repo.cls(MS, cname)
-        er = expand(ctx.repo, ci, "_subtotal_row", bind=b2("subtotal"), stop=lambda m: True)
-        ec = expand(ctx.repo, ci, "_subtotal_column", bind=b2("subtotal"), stop=lambda m: True)
+        # private helper METHODS inlined (a shared `_subtrahend_sums(subtotal, axis)` called with 0 / 1), properties symbolic
+        er = expand(ctx.repo, ci, "_subtotal_row", bind=b2("subtotal"), stop=lambda m: m.kind in ("lazyproperty", "property"))
+        ec = expand(ctx.repo, ci, "_subtotal_column", bind=b2("subtotal"), stop=lambda m: m.kind in ("lazyproperty", "property"))
         from ..symex import fold_consts
 
         er, ec = fold_consts(er), fold_consts(ec)
